@@ -26,13 +26,13 @@ add('C10', "property-based testing and fuzzing: model-based check of split / spl
     "exploration: pieces, rebuild round-trip, splitn limit model and fusedness on every generated (pattern, text)", NOREF, "DESIGN.md section 5 C10")
 add('C11', "property-based testing and fuzzing: model-based check of try_replacen / replace / replace_all against captures_iter + independent template scanner (thorough: libFuzzer campaign fuzz_prop/C11)",
     "exploration: 12 replacers x limits 0..3 on every generated (pattern, text); fast path vs slow path agreement; Err instead of panic under a tiny backtrack limit", NOREF, "DESIGN.md section 5 C11")
-add('C16', "property-based testing: metadata oracle computed from the generator's AST (group count, names, iterator protocol of Captures::iter), two engine forms per pattern",
+add('C16', "property-based testing: metadata oracle computed from the generator's AST (group count, names, Index impls, iterator protocol of Captures::iter, wrapping indices), two engine forms per pattern that must report the same spans, group spans of common-syntax patterns against the regex crate",
     "exploration: captures_len / capture_names / Captures::{len,iter,get,name} against the AST for delegated and VM-compiled forms", NOREF, "DESIGN.md section 5 C16")
 add('C03', "property-based testing and fuzzing: metamorphic relation (insert the no-op (?=) at every site; results must not change), exhaustive single sites + random multi-site (thorough: libFuzzer campaign fuzz_prop/C03)",
     "exploration: captures_from_pos of P and of every single-site injection P' compared on every text and offset; the injection provably changes the VM/automata split (measured per case)", NOREF, "DESIGN.md section 5 C03")
 add('C04', "property-based testing and fuzzing: differential against the regex crate over the whole public API on the shared syntax (thorough: libFuzzer campaign fuzz_prop/C04)",
     "exploration: ~60 API calls per (pattern, text) compared with regex::Regex; exhaustive small trees, flag variants, named groups, random ASTs", "trusted: the regex crate as oracle; one-sided compile failures are counted, not judged", "DESIGN.md section 5 C04")
-add('C06', "fuzzing / property-based testing: exhaustive token sequences + proptest random token sequences and mutations of valid patterns, run in worker processes under a counting allocator and RLIMIT_AS",
+add('C06', "fuzzing / property-based testing: exhaustive token sequences + proptest random token sequences and mutations of valid patterns, run in worker processes under a counting allocator and RLIMIT_AS; nesting and growth families (one unit repeated n and 4n times: no crash, memory about linear)",
     "exploration: every generated string is compiled through Regex::new, Expr::parse_tree and RegexBuilder; panic, overflow, crash, oversized allocation or an out-of-range error position is a counterexample", "trusted: the counting allocator and the 256 MiB + 4 MiB*len peak cap as the stand-in for 'memory proportional to the pattern'; wall clock is only a watchdog", "DESIGN.md section 5 C06")
 add('C12', "property-based testing and fuzzing: exhaustive templates over a syntax alphabet + proptest fragment sequences against an independent template scanner; escape round-trip; one-directional check() relation; short-writing writers (thorough: libFuzzer campaign fuzz_prop/C12 on raw template bytes)",
     "exploration: every template x 8 capture sets x 2 expanders through all five expansion entry points", "trusted: the template model written from the doc comments (harness/src/model.rs)", "DESIGN.md section 5 C12")
@@ -44,12 +44,12 @@ add('C20', "property-based testing and fuzzing: stateful model-based test of the
     "exploration: every step of every generated history compared (slots, branch count, auxiliary stack, pop results), final unwind included", "trusted: the hook wrapper forwards unchanged to the private State; the copy model is ~40 lines", "DESIGN.md section 5 C20")
 add('C07', "property-based testing and fuzzing: per-case threshold oracle from hook statistics (backtracks of the unlimited run) over a set of backtrack limits and entry points; reference-step bound for spurious limit errors (incl. loops around committing constructs on long texts); instruction/stack bounds (thorough: libFuzzer campaign fuzz_prop/C07)",
     "exploration: every VM-compiled generated (pattern, text, offset) under 8 (+3 exact) limits; sharp threshold L < B <=> error", REF + "; the run statistics hook", "DESIGN.md section 5 C07")
-add('C13', "property-based testing: instrumented reference matcher records the lengths every sub-expression really matches and compares them with the analysis facts read through the hook; differential on look-behind products over multi-byte texts",
+add('C13', "property-based testing: instrumented reference matcher records the lengths every sub-expression really matches and compares them with the analysis facts read through the hook; differential on look-behind products over multi-byte texts; independent syntactic fixed-length oracle for wrongly rejected look-behinds",
     "exploration: facts of every node of every generated pattern (also of patterns the compiler then rejects) against observed match lengths; look-behind behaviour against the reference", REF + "; conversion Expr -> reference AST (shape-checked per pattern)", "DESIGN.md section 5 C13")
 add('C18', "stress testing with a differential oracle (single-threaded results): proptest-generated call sequences over a corpus and over freshly generated VM patterns, barrier start, hot-spot and iterator-state hammer rounds, stuck-round (deadlock) detection, in-flight overlap measurement; compile-time Send/Sync/Clone assertion crate; thorough: ThreadSanitizer build",
     "exploration (weakest check): the schedule is the OS's; a violation is only reported if provoked; results of every concurrent call compared with the single-threaded result", "trusted: nothing beyond std; no schedule control for regex-automata's pool with the installed tooling", "DESIGN.md section 5 C18")
-add('C19', "property-based testing: metamorphic respelling (13 transformers over the token stream, 24 bracketed-class item pairs) with tree equality via Expr::parse_tree and behavioural equality; printer/parser/conversion round trip",
-    "exploration: every generated pattern x 13 respellings; trees equal (modulo the case flag of caseless literals) and captures equal on every text and offset", NOREF, "DESIGN.md section 5 C19")
+add('C19', "property-based testing: metamorphic respelling (18 transformers over the token stream, 24 bracketed-class item pairs) with tree equality via Expr::parse_tree and behavioural equality; printer/parser/conversion round trip",
+    "exploration: every generated pattern x 18 respellings (each only on the patterns it can change); trees equal (modulo the case flag of caseless literals) and captures equal on every text and offset", NOREF, "DESIGN.md section 5 C19")
 
 import os
 TABLE = '/verif/tools/manifest_table.json'
